@@ -3321,6 +3321,11 @@ def auto_chunks(chunks, shape, limit, dtype, previous_chunks=None):
     limit = max(1, limit)
     chunksize_tolerance = config.get("array.chunk-size-tolerance")
 
+    if any(s == 0 for s in shape):
+        # Empty array: every block holds zero bytes, any chunking fits the limit
+        # (and the zero largest block must not be used as a divisor below)
+        return tuple((shape[i],) if i in autos else c for i, c in enumerate(chunks))
+
     largest_block = math.prod(
         cs if isinstance(cs, Number) else max(cs) for cs in chunks if cs != "auto"
     )
